@@ -2,7 +2,7 @@
 //! dense logs of the real functions for TLC to validate (leg B).
 use crate::common::*;
 use crate::ts::Rng;
-use mina::prelude::*;
+
 use mina_core::easing::EasingFunction;
 use mina_core::interpolation::Lerp;
 use serde_json::{json, Value};
@@ -90,7 +90,7 @@ pub fn drive_lerp(seed: u64, full8: bool, out: &str) -> Value {
     // the f32 neighbours of 1/2 and of the end points, as exact rationals over 2^25
     let xs_edge: Vec<(i64, i64)> = vec![(0, 1), (1, 33554432), (16777215, 33554432), (16777216, 33554432), (16777218, 33554432), (33554430, 33554432), (1, 1)];
     let (mut recs, mut evals) = (0u64, 0u64);
-    let mut put = |v: Value, f: &mut std::io::BufWriter<std::fs::File>| { writeln!(f, "{}", v).unwrap(); };
+    let put = |v: Value, f: &mut std::io::BufWriter<std::fs::File>| { writeln!(f, "{}", v).unwrap(); };
     // 8-bit types: all pairs (thorough) or boundary + random pairs (quick)
     let pick8 = |lo: i64, hi: i64, rng: &mut Rng| -> Vec<i64> {
         if full8 { (lo..=hi).collect() } else { let mut v = vec![lo, lo + 1, (-1i64).max(lo), 0i64.max(lo), 1, 2, hi / 2, hi - 1, hi]; for _ in 0..14 { v.push(lo + rng.below((hi - lo + 1) as u64) as i64); } v.sort(); v.dedup(); v }
